@@ -14,19 +14,24 @@ from ..core import MachineryError
 TOKENS = ["a", "b", "items", "+m", "*", ".", ":", ",", "[", "]"]
 CONC = {"a": "alpha", "b": "b_2", "items": "items", "+m": "+meta", "*": "*", ".": ".", ":": ":", ",": ",", "[": "[", "]": "]"}
 NAME_OF = {"alpha": "a", "b_2": "b", "meta": "m", "items": "items"}
+# other spellings of the two NAME tokens: names that begin / end with the keyword, digits, underscores, capitals
+NAMES_A = ["alpha", "itemsize", "items_total", "item", "xitems", "_a", "A9", "items_"]
+NAMES_B = ["b_2", "items2", "b", "notitems", "Items", "itemss"]
+NAME_OF.update({n: "a" for n in NAMES_A})
+NAME_OF.update({n: "b" for n in NAMES_B})
 WS = ["", "", " ", "  ", "\t", "\n"]
 
 
 NAMEY = ("a", "b", "items", "+m")
 
 
-def text_of(tokens, rnd=None):
+def text_of(tokens, rnd=None, names=None):
     """token string -> text; two adjacent name-like tokens are always separated by a blank (otherwise they
     would fuse into one longer name, which is a different token string)"""
     out = [rnd.choice(WS) if rnd else ""]
     prev = None
     for t in tokens:
-        c = CONC[t]
+        c = (names or CONC).get(t, CONC[t])
         if rnd and t == "+m" and rnd.random() < 0.3:
             c = "+ meta"
         if prev in NAMEY and t in ("a", "b", "items") and not out[-1]:
@@ -109,6 +114,58 @@ def root_object():
     return _R["cls"]()
 
 
+def universe():
+    from traits.api import HasTraits, Instance
+    if "U" not in _R:
+        class C15U(HasTraits):
+            alpha = Instance(HasTraits)
+            b_2 = Instance(HasTraits)
+            items = Instance(HasTraits)
+            tT = Instance(HasTraits, meta=True)
+            tF = Instance(HasTraits, meta=False)
+            t0 = Instance(HasTraits, meta=0)
+            tE = Instance(HasTraits, meta="")
+            tN = Instance(HasTraits, meta=None)
+            plain = Instance(HasTraits)
+        _R["U"] = C15U
+    return _R["U"]
+
+
+U_NAMES = {"alpha": "a", "b_2": "b", "items": "items", "tT": "tT", "tF": "tF", "t0": "t0", "tE": "tE", "tN": "tN", "plain": "plain"}
+
+
+def fires(text):
+    """(set of root traits, set of (holding trait, child trait)) whose assignment calls a handler observing `text`"""
+    U = universe()
+    root = U()
+    kids = {}
+    for n in U_NAMES:
+        kids[n] = U()
+        setattr(root, n, kids[n])
+    calls = []
+    try:
+        root.observe(calls.append, text)
+    except Exception as e:
+        return "observe raised %s: %s" % (type(e).__name__, e)
+    f2 = set()
+    try:
+        for c, kid in kids.items():
+            for n in U_NAMES:
+                del calls[:]
+                setattr(kid, n, U())
+                if calls:
+                    f2.add((U_NAMES[c], U_NAMES[n]))
+        f1 = set()
+        for n in U_NAMES:
+            del calls[:]
+            setattr(root, n, U())
+            if calls:
+                f1.add(U_NAMES[n])
+    except Exception as e:
+        return "assignment raised %s: %s" % (type(e).__name__, e)
+    return f1, f2
+
+
 def notifier_census(obj):
     out = {}
     for n in ("alpha", "b_2", "tagged", "trait_added"):
@@ -168,7 +225,8 @@ def run(rep, tier, seed):
         for toks, st in lang.items():
             den = den_of(st["den"])
             for variant in range(3):
-                text = text_of(toks, None if variant == 0 else rnd)
+                names = None if variant == 0 else {"a": rnd.choice(NAMES_A), "b": rnd.choice(NAMES_B)}
+                text = text_of(toks, None if variant == 0 else rnd, names)
                 n_members += 1
                 case = {"tokens": list(toks), "text": text, "in_lark_grammar": bool(st["lark"])}
                 try:
@@ -196,6 +254,46 @@ def run(rep, tier, seed):
                     rep.violation("C15:reparse", "%r compiled twice gives different patterns" % text, case)
             rep.sample({"tokens": list(toks), "text": text_of(toks), "paths": sorted(den_of(st["den"]))}, limit=3)
         rep.case(n_members)
+        # what the elements match: the handler registered by each text on a universe object must be called for exactly
+        # the assignments the specification lists (Fires1: traits of the root, Fires2: traits of the objects it holds)
+        n_fire = 0
+        for toks, st in lang.items():
+            if not st["lark"] or st["dup"]:
+                continue
+            n_fire += 1
+            text = text_of(toks)
+            exp1 = set(str(t) for t in st["f1"])
+            exp2 = set((str(c), str(t)) for c, t in st["f2"])
+            got = fires(text)
+            if isinstance(got, str):
+                rep.violation("C15:matching-exc", "observing %r on the universe object: %s" % (text, got), {"text": text})
+            elif got != (exp1, exp2):
+                rep.violation("C15:matching", "%r: handler called for root traits %r / child traits %r; the documented tables "
+                              "give %r / %r" % (text, sorted(got[0]), sorted(got[1]), sorted(exp1), sorted(exp2)),
+                              {"text": text, "tokens": list(toks)})
+        rep.case(n_fire)
+        # equal patterns iff equal meaning, graph by graph and in both directions of ==
+        pool = {}
+        for toks, st in lang.items():
+            if not st["lark"] or st["dup"]:
+                continue
+            for g in compile_fresh(text_of(toks)):
+                pool.setdefault(frozenset(project_graphs([g])), g)
+        keys = list(pool)
+        n_eq = 0
+        npairs = 150000 if tier == "quick" else 10 ** 9
+        allpairs = len(keys) * (len(keys) - 1) // 2 <= npairs
+        pairs = (itertools.combinations(range(len(keys)), 2) if allpairs else
+                 ((rnd.randrange(len(keys)), rnd.randrange(len(keys))) for _ in range(npairs)))
+        for i, j in pairs:
+            if i == j:
+                continue
+            n_eq += 1
+            g, h = pool[keys[i]], pool[keys[j]]
+            if g == h or h == g or not (g != h) or not (h != g):
+                rep.violation("C15:unequal-meanings-equal-patterns", "graphs with different meanings compare equal: %r / %r"
+                              % (sorted(keys[i]), sorted(keys[j])), {"a": sorted(keys[i]), "b": sorted(keys[j])})
+        rep.case(n_eq)
         # equivalent spellings: same parse tree (extra brackets), whitespace variants; removal by text
         n_rt = 0
         groups = [g for g in bytree.values()]
@@ -293,7 +391,8 @@ def run(rep, tier, seed):
                     "removed by the other on a real object; all %d remaining token strings up to %d tokens (plus junk "
                     "strings) must raise ValueError" % (maxlen, len(lang), n_rt, n_rej, bound))
         rep.exhaustive = True
-        rep.extra.update(language_size=len(lang), max_tokens=maxlen, rejected_strings=n_rej, roundtrips=n_rt)
+        rep.extra.update(language_size=len(lang), max_tokens=maxlen, rejected_strings=n_rej, roundtrips=n_rt,
+                         matching_cases=n_fire, graph_pairs_compared=n_eq)
     finally:
         shutil.rmtree(work, ignore_errors=True)
 
